@@ -16,6 +16,7 @@ import (
 	"reflect"
 	"regexp"
 	"slices"
+	"strings"
 	"time"
 )
 
@@ -258,6 +259,9 @@ func forType(t reflect.Type, seen map[reflect.Type]bool, ignore bool, schemas ma
 			if s.Properties == nil {
 				s.Properties = make(map[string]*Schema)
 			}
+			// namedEmbedded is set for an embedded struct that encoding/json treats
+			// as an ordinary field, because its json tag gives it a name (or omits it).
+			namedEmbedded := false
 			if field.Anonymous {
 				override := schemas[field.Type]
 				if override != nil {
@@ -290,8 +294,14 @@ func forType(t reflect.Type, seen map[reflect.Type]bool, ignore bool, schemas ma
 							s.PropertyOrder = append(s.PropertyOrder, name)
 						}
 					}
+					continue
 				}
-				continue
+				// The fields of an embedded struct are promoted (they follow in the
+				// list of visible fields) unless the json tag names the embedded field.
+				if name, _, _ := strings.Cut(field.Tag.Get("json"), ","); name == "" {
+					continue
+				}
+				namedEmbedded = true
 			}
 
 			// Check to see if this field has been promoted from a replaced anonymous
@@ -318,6 +328,10 @@ func forType(t reflect.Type, seen map[reflect.Type]bool, ignore bool, schemas ma
 				}
 			}
 
+			if namedEmbedded {
+				// The fields promoted from it are not properties of this struct.
+				skipPath = field.Index
+			}
 			info := fieldJSONInfo(field)
 			if info.omit {
 				continue
